@@ -67,6 +67,7 @@ pub struct Inv {
     pub node: u32,
     pub epoch: u64,
     pub seq: u64,
+    pub seq_exit: u64,
     pub reads: Vec<(u32, Val)>,
     pub result: Option<Val>,
     pub aborted: bool,
@@ -79,6 +80,8 @@ pub enum Ev {
     Read(usize, u32, Val),
     Exit(usize),
     Abort(usize),
+    /// an event reported by a hook inside the engine
+    Hook(&'static str, u64, u64),
 }
 
 #[derive(Default)]
@@ -118,6 +121,43 @@ impl Harness {
         st.seq += 1;
         st.seq
     }
+}
+
+thread_local! {
+    static SINK: std::cell::RefCell<Option<Arc<Harness>>> = const { std::cell::RefCell::new(None) };
+}
+
+pub fn set_event_sink(h: Option<Arc<Harness>>) { SINK.with(|s| *s.borrow_mut() = h); }
+
+fn hook_task_decide(site: &'static str, kind: qbice::storage::verif::PointKind) -> u32 {
+    sched::decide(
+        site,
+        match kind {
+            qbice::storage::verif::PointKind::Preempt => PK::Preempt,
+            qbice::storage::verif::PointKind::Await => PK::Await,
+        },
+    )
+}
+
+fn hook_thread_point(_site: &'static str) {}
+
+fn hook_event(site: &'static str, a: u64, b: u64) {
+    sched::probe(site);
+    SINK.with(|s| {
+        if let Some(h) = s.borrow().as_ref() {
+            let mut st = h.st.lock();
+            st.seq += 1;
+            st.events.push(Ev::Hook(site, a, b));
+        }
+    });
+}
+
+pub fn install_hooks() {
+    qbice::storage::verif::install(qbice::storage::verif::Hooks {
+        task_decide: hook_task_decide,
+        thread_point: hook_thread_point,
+        event: hook_event,
+    });
 }
 
 pub const INJECTED_PANIC: &str = "verif-injected-executor-panic";
@@ -237,6 +277,7 @@ impl NodeExec {
                 node: n,
                 epoch: h.epoch.load(Ordering::SeqCst),
                 seq,
+                seq_exit: 0,
                 reads: Vec::new(),
                 result: None,
                 aborted: false,
@@ -270,6 +311,7 @@ impl NodeExec {
         {
             let mut st = h.st.lock();
             st.seq += 1;
+            st.invs[id].seq_exit = st.seq;
             st.invs[id].result = Some(v.clone());
             st.events.push(Ev::Exit(id));
         }
